@@ -64,6 +64,7 @@ type HR struct {
 	n     int
 	tok   int
 	all   []*lifetime
+	st    *hlib.Stats
 }
 
 // ---------------------------------------------------------------- contents of an index (child process)
@@ -467,7 +468,9 @@ func variantsOf(im *image, mode int, r *hlib.Rand) []variant3 {
 					v.snap = string(f.kind)
 					if f.kind == 't' {
 						v.tornName, v.tornLen = name, len(f.bytes)
-						if _, ok := ParseSnapshot(f.bytes); ok {
+						// the previous file of that name, untouched, is not a torn variant: it is the old state (it can be a
+						// complete snapshot only where an epoch is written again over a complete file)
+						if _, ok := ParseSnapshot(f.bytes); ok && !bytes.Equal(f.bytes, im.prev[name]) {
 							v.accepted = true
 						}
 					}
@@ -636,6 +639,12 @@ func (h *HR) endLifetime(out func(string, string), st *hlib.Stats) {
 	}
 	if lt.faults != nil {
 		lt.faults.clear(true)
+		lt.faults.mu.Lock()
+		for op := range lt.faults.mmFired {
+			st.Count(map[string]string{"mm-snap": "fault:snapshot-write-after-in-memory-merge",
+				"mm-mseg": "fault:merged-segment-write-in-memory-merge", "mm-load": "fault:merged-segment-load-in-memory-merge"}[op])
+		}
+		lt.faults.mu.Unlock()
 	}
 	c.closeWriter()
 	re := "reopened"
@@ -1186,6 +1195,7 @@ func (h *HR) Gen(r *hlib.Rand, tier string, scale int, emit func(string)) {
 
 func (h *HR) Exec(line string, out func(string, string), st *hlib.Stats, work string) {
 	installTrace()
+	h.st = st
 	f := strings.Fields(line)
 	if len(f) == 0 {
 		return
